@@ -27,6 +27,12 @@ COMMON_TRUST = [
     "Go compiler/runtime semantics of integer and slice operations",
 ]
 
+def proj_all(op, s):
+    """map an implementation/model answer to the vocabulary of the specification column"""
+    if op in ("der_parse", "pubkey_parse", "recover", "schnorr_verify") and s.startswith("err "):
+        return "reject"
+    return s
+
 HOOK_COMMITS = ["62e1034"]
 
 UNDER_CONSTRUCTION = "machinery for this property is still under construction in this session; not claimed until its check is green and validated"
@@ -84,6 +90,41 @@ def c17_race_run(ctx, tier, seed):
         shutil.rmtree(hb, ignore_errors=True)
 
 PROPS = {
+    "C04": {
+        "level_text": "Theorems (Lean 4 kernel) about the REGENERATED call-structured formula programs (tools/gotr T2 from curve.go on every run): for EVERY pair of well-formed Jacobian triples - any Z scaling, Z = 1, shared Z, equal points, opposite points, the identity in any encoding - AddNonConst with a distinct result and AddNonConst with the result aliasing the first operand return a well-formed (normalised, on-curve or identity) triple representing the affine sum; DoubleNonConst in place represents 2P (identity when Y = 0, which cannot occur for curve points because -7 is not a cube mod P); ToAffine returns (X/Z^2, Y/Z^3, 1). Each of the four add routines, both doubling routines and the 37-path dispatch are proved path by path (unfold, cast to ZMod P, field_simp, ring). The affine law they are compared with is proved to be Mathlib's WeierstrassCurve.Affine.Point addition (Secp.Proofs.SpecGroup). The same programs are executed by the driver and diffed with the real routines on all relation classes x Z patterns x three alias patterns, the six internal routines through hooks, and off-curve field values.",
+        "level_note": "Trusted: Lean kernel + Mathlib's definition of the curve group; tools/gotr T2 (regenerated every run, its programs executed against the real routines). Value level: the programs compute with field values; that the limb code realises each field operation exactly under the magnitudes used is C05 + C16. The aliasing pattern result = p2 (AddNonConst_a011), which no caller in the library uses, is covered by the correspondence run only, not by a theorem. Proofs name paths by index, so a reordering of statements in curve.go can break them although the property holds (reported as no-failing-input-found).",
+        "technique": "Lean 4 proof (field_simp/ring against the affine law, bridged to Mathlib's group) about regenerated formula programs + differential run of the same programs",
+        "trusted_base": COMMON_TRUST + ["tools/gotr T2 (regenerated, executed)", "Mathlib WeierstrassCurve.Affine.Point"],
+        "assumptions": ["operands are well-formed Jacobian triples (normalised coordinates, on the curve or an identity encoding): the routines' documented contract"],
+    },
+    "C12": {
+        "level_text": "Theorems (Lean 4 kernel) about a model of ecckd (HMAC-SHA512 and RIPEMD160(SHA256) as parameters): CKDpriv returns exactly BIP32's fields (I_L, I_R, depth+1, fingerprint, child number, key = I_L + k_par mod N as exactly 32 bytes); private child keys always have 32 bytes; hardened-from-public and depth-255 derivations are refused; the accumulated tweak satisfies child = parent + t (mod N) along any path (induction over the path); for a private parent and a non-hardened index, neutering then deriving equals deriving then neutering with the same I_L (conditional on PointSpec, group algebra in Mathlib's curve group; the BIP32 edge case child key = 0 is an explicit hypothesis). Correspondence (oracle table for the hashes): seeds 16..64 bytes, paths up to 8 over {0, 2^31-1, 2^31, 2^32-1, random}, neutering at every position, and a DIRECTED search (plain HMAC, 400 k candidates) for children whose private key has one and two or more leading zero bytes plus their hardened and normal grandchildren.",
+        "level_note": "Conditional on PointSpec for neuter_commutes. HMAC-SHA512, RIPEMD-160 are parameters (oracle). BIP32's rejection of child key 0 / point at infinity is not implemented by the code (needs a SHA-512 preimage to reach; DESIGN.md O2) and appears as a hypothesis.",
+        "technique": "Lean 4 proof (Secp.Props.C12; induction over paths; group algebra via the Mathlib bridge) + differential correspondence with directed leading-zero search",
+        "trusted_base": COMMON_TRUST + ["hand-written model mirrors the Go control flow; its point operations are the regenerated formula programs", "PointSpec (C03/C04 layer) is assumed by the theorems about points and validated on every run against the independent affine specification"] + ["crypto/hmac+sha512, ripemd160 (oracle)"],
+        "assumptions": ["PointSpec (neuter_commutes only)", "child private key != 0"],
+    },
+    "C13": {
+        "level_text": "Theorems (Lean 4 kernel) about a model of MarshalBinary/UnmarshalBinary: decoding succeeds EXACTLY for 82 bytes with a matching double-SHA256 checksum, a key type consistent with the version and a private key in [1,N-1] or a parsable public key, and returns exactly the encoded fields; wrong length and wrong checksum are reported first; marshal then unmarshal is the identity on every private key the package can produce; the encoding has 82 bytes. Value semantics of a decoded key is structural in the model; for the CODE it is checked by the correspondence run, which overwrites the caller's buffer after every successful decode and re-reads the key (defect F2 was caught this way). Correspondence: valid private/public keys at several depths, each field set to boundary values with a recomputed checksum (all four versions and an unknown one, depth 255, key prefix 0..7 and 255, private key 0, N-1, N, 2^256-1, off-curve x, x >= P), checksum bit flips, lengths 0..100, base58 text form through an oracle.",
+        "level_note": "SHA-256 is the Lean implementation (diffed against crypto/sha256); base58 is an oracle. The public-key round trip relies on C08.",
+        "technique": "Lean 4 proof (Secp.Props.C13) + differential correspondence with post-decode buffer scribbling",
+        "trusted_base": COMMON_TRUST + ["base58 (oracle)", "Model.Bip32 mirrors extended.go (hand-written)"],
+        "assumptions": [],
+    },
+    "C15": {
+        "level_text": "Theorems (Lean 4 kernel) about a model of the crypto/elliptic adaptor: for operands that are curve points with coordinates in [0,P) or the (0,0) identity, Add returns the affine group-law sum (incl. equal, opposite and identity operands -> (0,0)), Double returns 2P (unconditionally: its single path is executed symbolically), ScalarMult and ScalarBaseMult return (k mod N)*P for scalars of ANY byte length, IsOnCurve is true exactly on the curve. Conditional on PointSpec except Double and the scalar/bytes lemma. The crypto/ecdsa interoperability half is differential: each run signs here and verifies with crypto/ecdsa (Verify and VerifyASN1) and vice versa, and compares converted keys.",
+        "level_note": "Conditional on PointSpec. big.Int is modelled as a natural number; coordinates outside [0,P) are outside the property's domain (DESIGN.md O7). Interop with crypto/ecdsa is testing, labelled so.",
+        "technique": "Lean 4 proof (Secp.Props.C15, conditional on PointSpec) + differential correspondence incl. crypto/ecdsa interop",
+        "trusted_base": COMMON_TRUST + ["hand-written model mirrors the Go control flow; its point operations are the regenerated formula programs", "PointSpec (C03/C04 layer) is assumed by the theorems about points and validated on every run against the independent affine specification"] + ["math/big", "crypto/ecdsa (interop oracle)"],
+        "assumptions": ["PointSpec"],
+    },
+    "C20": {
+        "level_text": "Theorems (Lean 4 kernel): models that make every Go index and slice expression explicit (panic exactly where Go would) never panic for ANY byte string of ANY length and equal the total models used by the other properties - SetByteSlice, ParseCompactSignature, schnorr.ParseSignature, UnmarshalBinary, the NonceRFC6979 key-buffer assembly, ParseDERSignature (C09), ParsePubKey (C08); recovery panics only on the documented misuse. Purity/argument preservation/history-freedom for the CODE: the correspondence run calls every byte-taking entry point (11 of them + the adaptor + FromString) on every length 0..128 with random, all-zero, all-ff and structured contents under recover(), with argument snapshots around each call, in a shuffled order with repeats, and compares every answer with the model's; C17's regenerated facts show no entry point writes shared state.",
+        "level_note": "The unbounded Go loops (RFC 6979 candidates, sign retry) are modelled with fuel. Totality of the real code beyond the mirrored bounds arithmetic (e.g. allocation failure) is outside the model. Documented API-misuse panics are outside the property.",
+        "technique": "Lean 4 proof about explicit-bounds models (Secp.Props.C20) + differential run under recover() with argument snapshots over all lengths 0..128",
+        "trusted_base": COMMON_TRUST + ["Model.Total mirrors the slice/index expressions of the entry points (hand-written)"],
+        "assumptions": [],
+    },
     "C11": {
         "project": proj_c11,
         "level_text": "Theorems (Lean 4 kernel) about a model of schnorr/signature.go with BLAKE-256 as a parameter: verification returns nil EXACTLY when m is 32 bytes, Q is on the curve, e = BLAKE-256(r||m) < N and s*G + e*Q is a finite point with even y and x = r (conditional on PointSpec); signing with a given nonce is the README algorithm (nonce negated when R.y is odd, e >= N reported, s = k - e*d); Sign refuses zero keys and wrong message lengths; the 64-byte codec accepts exactly length 64 with r < P, s < N and round-trips. Correspondence (BLAKE-256 answered from an oracle table filled by the real implementation): produced signatures, tampered r/s/m, wrong and off-curve keys, all message lengths, forced nonces through a hook incl. odd-y R and the nonce-not-negated variant, r >= P and s >= N encodings; each verification also compared with a textbook verifier over the affine specification.",
@@ -193,3 +234,6 @@ PROPS = {
         "assumptions": ["scalar decoding inside the parser is modelled at value level (SetByteSlice = reduce once); the limb-level kernel is C06's concern"],
     },
 }
+
+for _k, _v in PROPS.items():
+    _v.setdefault("project", proj_all)
